@@ -374,8 +374,101 @@ def fam_sync():
                               'row symbolic'))
 
 
+def fam_sync_faults():
+    """start-up synchronisation hit by a database fault at any of its
+    statements, followed by the next start-up synchronisation of the same
+    process (flags are NOT reset in between): a sync that returns normally
+    has done its work exactly once; one that failed changed nothing; and the
+    next one completes the job."""
+    from engine import inject
+    STD_TRAITS = ['HW_A', 'HW_B', 'MISC_D']
+    STD_RCS = ['VCPU', 'MEMORY_MB', 'DISK_GB']
+
+    def check_all_present(ctx, state, when):
+        for i, n in enumerate(STD_RCS):
+            rows = [x for x in state['resource_classes']
+                    if x.vals['name'] == n]
+            obligation(ctx, 'standard-present', zbool(Not(Or(
+                *[x.present for x in rows]))),
+                'class %s missing %s' % (n, when), sig=when)
+            for x in rows:
+                obligation(ctx, 'standard-class-id', z3.And(
+                    zbool(x.present), to_z3(x.vals['id']) != i),
+                    'class %s has id != %d %s' % (n, i, when), sig=when)
+        for n in STD_TRAITS:
+            rows = [x for x in state['traits'] if x.vals['name'] == n]
+            obligation(ctx, 'standard-present', zbool(Not(Or(
+                *[x.present for x in rows]))),
+                'trait %s missing %s' % (n, when), sig=when)
+
+    def path(ctx):
+        app.setup()
+        import os_traits
+        import os_resource_classes as orc
+        from placement import db_api
+        real_get, real_std = os_traits.get_traits, orc.STANDARDS
+        os_traits.get_traits = lambda *a, **k: list(STD_TRAITS)
+        orc.STANDARDS = list(STD_RCS)
+        try:
+            with World(ctx) as w:
+                for i, n in enumerate(STD_RCS):
+                    w.backend.add('resource_classes',
+                                  present=ctx.bool('have_rc_%d' % i), id=i,
+                                  name=n)
+                for i, n in enumerate(STD_TRAITS):
+                    w.backend.add('traits', present=ctx.bool('have_tr_%d' % i),
+                                  id=i + 1, name=n)
+                if not w.concrete:
+                    w.db.committed.next_id['traits'] = 100
+                trait_obj._TRAITS_SYNCED = False
+                rc_obj._RESOURCE_CLASSES_SYNCED = False
+                pre = w.dump()
+                hook, un = inject.install_faults(
+                    w, kinds=('deadlock', 'deadlock+rollback', 'dberror'))
+                failed = []
+                try:
+                    for what, fn in (('traits', trait_obj.ensure_sync),
+                                     ('classes', rc_obj.ensure_sync)):
+                        try:
+                            fn(db_api.DbContext())
+                        except symex.EngineSignal:
+                            raise
+                        except Exception as e:
+                            failed.append(what)
+                finally:
+                    un()
+                mid = w.dump()
+                if not hook.injected:
+                    return finish(ctx, 'no-fault')
+                kind = '%s@%s' % (hook.injected[0][1], hook.injected[0][2])
+                if not failed:
+                    check_all_present(ctx, mid, 'after a sync that returned '
+                                      'normally (%s)' % kind.split('@')[0])
+                for what in failed:
+                    t = 'traits' if what == 'traits' else 'resource_classes'
+                    obligation(ctx, 'failed-sync-changes-nothing', zbool(
+                        rel_diff(pre, mid, (t,))),
+                        'sync of %s failed but changed the table' % what)
+                # the next start-up synchronisation of the same process
+                for fn in (trait_obj.ensure_sync, rc_obj.ensure_sync):
+                    fn(db_api.DbContext())
+                after = w.dump()
+                check_all_present(ctx, after, 'after the following start-up '
+                                  'synchronisation')
+                return finish(ctx, 'fault:%s:%s' % (
+                    kind.split('@')[0], 'failed' if failed else 'ok'))
+        finally:
+            os_traits.get_traits, orc.STANDARDS = real_get, real_std
+            trait_obj._TRAITS_SYNCED = True
+            rc_obj._RESOURCE_CLASSES_SYNCED = True
+    return Family('startup-sync-faults', path, bounds=dict(
+        standard_traits=3, standard_classes=3, faults='one fault (deadlock, '
+        'deadlock after rollback, generic error) at any statement of the '
+        'first synchronisation', presence='every row symbolic'))
+
+
 def families(tier):
-    return [fam_names(), fam_hostile_names(), fam_rc_create('POST'), fam_rc_create('PUT'),
+    return [fam_names(), fam_sync_faults(), fam_hostile_names(), fam_rc_create('POST'), fam_rc_create('PUT'),
             fam_std_immutable(), fam_sync()]
 
 
